@@ -65,6 +65,8 @@ LATER = {
     "C20": "R20.7 also covers the loads() entry points (archive construction and header reads inside the translating try); R20.12: loaders reject an empty operand container for And/Or/Xor/Piecewise/Union/FiniteSet/Derivative/Max/Min; R20.13: the loader's address table holds owning references.",
     "C18": "R18.3: string positions from find*() are tested before use in the hand-written parser code; container members written through mutators count as parser state.",
     "C40": "R40.6: a DenseMatrix member that resizes *this does not read its const DenseMatrix& argument afterwards without an alias test.",
+    "C29": "R29.4: no machine-word read (mp_get_si/mp_get_ui) of an Integer in logic.cpp without the dominating fits-test of the same operand.",
+    "C15": "R15.6: a node printed through a replacement expression binds as tightly as Precedence reports; R15.7: infix operands of the code printers (C44 R44.10 under C15); R15.8: the literal text a handler writes for an Atom-precedence node has no infix operator outside parentheses.",
     "C39": "R39.5: a stop visitor sets stop_ only after assigning its answer; R39.6: a dedicated free_symbols handler visits every child under a cache test about that child; R39.7: has_symbol compares the needle at every class coeff() admits; R39.8: every binder class (Subs, ConditionSet, ImageSet) has a binding-aware free_symbols handler.",
     "C42": "R42.5/R42.6 index and integer hand-over; R42.7 container wrappers apply the std operation of the same meaning; R42.8 no const input handle is read after an output handle was written; R42.9 enum-valued C integers arrive by cast; R42.10 nullary constructors return the object their name says; R42.11 objects created by *_new() are fully initialised; R42.12 a call that receives an output handle by reference holds its own RCP of every input; R42.13 the C matrix functions size the result with the shape of the operation.",
     "C44": "R44.10 operands next to an infix operator in _print_pow are parenthesised and the top-level operator is the power operator; R44.11 no forward loop prepends its elements to an output sequence; R44.12 begin() of a sequence the function tests for emptiness is stepped only where emptiness is excluded; the XML escaper itself is complete; R44.13 every Infty handler distinguishes the direction; R44.14 children are never streamed with the default string printer.",
